@@ -89,13 +89,28 @@ def run_policies(chk, n, body, case, what, policies=('reverse', 'random', 'round
 def part_handlers(chk, drv):
     from pygyro.model.layout import getLayoutHandler
     rng = chk.rng
-    for it in range(chk.n(40, 400)):
-        cfg = c01.gen_config(rng, True, it)
-        if rng.random() < 0.3:
-            # fewer points than processes along some dimension: some ranks own empty blocks in some layouts
-            cfg['ext'] = list(cfg['ext'])
-            cfg['ext'][rng.randrange(len(cfg['ext']))] = rng.choice([1, 1, 2])
+    # corpus (runs first): over-decomposition on BOTH process axes of the standard layouts.  Before the repair of F15 the rank
+    # whose blocks are empty in every layout left `transpose` at once (`_buffer_size == 0`) while the other member of its
+    # sub-communicator waited in Alltoall (found by the proof attempt of C06.handler_traces_projection)
+    L4 = {'flux_surface': [0, 3, 1, 2], 'v_parallel': [0, 2, 1, 3], 'poloidal': [3, 2, 1, 0]}
+    corpus = []
+    for ext, nprocs in (([1, 2, 1, 4], [2, 2]), ([3, 2, 3, 8], [4, 4]), ([2, 3, 1, 3], [3, 2])):
+        nm = list(L4)
+        corpus.append({'nprocs': nprocs, 'ext': ext, 'layouts': L4,
+                       'pairs': [(a, b, ub) for a in nm for b in nm if a != b for ub in (False, True)][:8]})
+    for it in range(-len(corpus), chk.n(40, 400)):
+        if it < 0:
+            cfg = corpus[it + len(corpus)]
             chk.count('handler configurations with empty blocks')
+        else:
+            cfg = c01.gen_config(rng, True, it)
+            if rng.random() < 0.4:
+                # fewer points than processes along one or several dimensions: some ranks own empty blocks in some or in all
+                # layouts, possibly on different process axes
+                cfg['ext'] = list(cfg['ext'])
+                for _ in range(rng.choice([1, 1, 2, 3])):
+                    cfg['ext'][rng.randrange(len(cfg['ext']))] = rng.choice([1, 1, 2])
+                chk.count('handler configurations with empty blocks')
         names = list(cfg['layouts'])
         if not lu.connected(cfg['nprocs'], [cfg['layouts'][n] for n in names]):
             continue
@@ -112,7 +127,7 @@ def part_handlers(chk, drv):
                 h.transpose(a, b, src, dst, c if ub else None)
             return B
         case = {k: cfg[k] for k in ('nprocs', 'ext', 'layouts', 'pairs')}
-        ref = run_policies(chk, n, body, case, 'handler construction + transposes', exhaustive_depth=5 if (it < 3 and n <= 3) else 0)
+        ref = run_policies(chk, n, body, case, 'handler construction + transposes', exhaustive_depth=5 if (0 <= it < 3 and n <= 3) else 0)
         if ref is None:
             continue
         m = drv.call({'op': 'handler_trace', 'nprocs': cfg['nprocs'], 'ext': cfg['ext'], 'names': names,
@@ -453,7 +468,7 @@ def run(chk):
                 'sequences of depth 5 on <=3 ranks for the first configurations): H1-H3 and exact model traces; (b) grid reductions and figure blocks incl. a '
                 'plot-only rank; (c) the real driver for one step on 2-4 ranks under different policies; (d) random connection graphs (2-7 layouts, random names) '
                 'in interpreters with different string-hash seeds. non-trivial = more than one rank and at least one data-moving collective / graphs with >=4 connected layouts')
-    chk.proof_side(build=not getattr(chk, 'no_build', False), extra_props=('C06Extra',))
+    chk.proof_side(build=not getattr(chk, 'no_build', False), extra_props=('C06Extra', 'C06Traces'))
     drv = common.LeanDriver('C06.lean')
     try:
         part_handlers(chk, drv)
